@@ -857,7 +857,32 @@ def special_rejected_unconvertible(res):
         dropmod("tlg_c10_reject")
 
 
-SPECIALS = {"rejected-unconvertible": special_rejected_unconvertible, "classes": special_classes, "twin-modules": special_twin_modules, "leading-varargs": special_leading_varargs, "decorated": special_decorated}
+def special_equal_args_across_calls(res):
+    """one bound callable called several times with arguments that are == but of different classes (1, 1.0, True; '1', b'1'):
+    every call converts ITS argument"""
+    cold.clear_all()
+    m = mkmod("tlg_c10_eq", "def f(a: str, b: float = 0.0, *rest: str, **kw: str):\n    return (a, b, rest, kw)\n")
+    try:
+        for api in ("bind", "wrap"):
+            cold.clear_all()
+            b = gcall(getattr(typelib.binding, api), m.f)
+            res.programs += 1
+            for seq in ((1.0, True, 1), (True, 1, 1.0), (1, 1.0, True)):
+                for x in seq:
+                    res.evals += 1
+                    res.hit(f"special:equal-args:{api}")
+                    exp = (str(x), float(x), (str(x),), {"k": str(x)})
+                    out = gcall(b.val, x, x, x, k=x) if b.ok else b
+                    res.outcomes.add(h64("eqargs", api, repr(seq), repr(x), out.ok, repr(out.val) if out.ok else out.excname))
+                    if not (out.ok and fsame(out.val, exp)):
+                        got = repr(out.val) if out.ok else f"raises {out.excname}: {str(out.exc)[:80]}"
+                        res.violation("C10/special/equal-but-different-arguments-across-calls/" + ("wrong-conversion" if out.ok else "raises:" + out.excname),
+                                      f"{api}(f)({x!r}, {x!r}, {x!r}, k={x!r}) after the earlier calls of {seq!r}: got {got}, expected {exp!r}", {"special": "equal-args"})
+    finally:
+        dropmod("tlg_c10_eq")
+
+
+SPECIALS = {"equal-args": special_equal_args_across_calls, "rejected-unconvertible": special_rejected_unconvertible, "classes": special_classes, "twin-modules": special_twin_modules, "leading-varargs": special_leading_varargs, "decorated": special_decorated}
 
 
 def _masks_full_first(n, masks):
